@@ -54,7 +54,8 @@ def programs(ctx, n, small=False):
     out = [c["prog"] for c in ctx.corpus()]
     ops = ["schedule", "unschedule", "unschedule", "add", "remove", "remove", "unschedule_all", "stop", "start"]
     while len(out) < n:
-        p = op.gen_program(rng, max_calls=2 if small else 4, ops=ops, reentrant=rng.random() < 0.6)
+        p = op.gen_cohandler_program(rng) if rng.random() < 0.3 else \
+            op.gen_program(rng, max_calls=2 if small else 4, ops=ops, reentrant=rng.random() < 0.6)
         if op.n_starts(p) <= 1:
             out.append(p)
     return out
